@@ -120,6 +120,18 @@ var propOverrides = map[string]func(*propCfg){
 	"C23": func(c *propCfg) { c.quickRuns, c.quickSecs = 800, 100 },
 	"C29": func(c *propCfg) { c.quickRuns, c.quickSecs = 1500, 100 },
 	"C32": func(c *propCfg) { c.quickRuns, c.quickSecs = 2500, 100 },
+	"C33": func(c *propCfg) {
+		c.level = "fault_enumeration"
+		c.plans = func(base uint64, tier string) []*plan.Plan {
+			// every file-system operation of each workload is a crash point:
+			// the phases of one stride partition them among child processes
+			if tier == "thorough" {
+				return plan.EnumC33(base, 300, 8)
+			}
+			return plan.EnumC33(base, 24, 8)
+		}
+		c.quickSecs, c.thoroughSecs = 120, 2400
+	},
 	"C41": func(c *propCfg) {
 		c.race = true
 		c.quickRuns, c.quickSecs = 160, 150 // a race-detector run costs ~0.7 s of (mostly kernel) time and does not parallelise well in this VM
